@@ -1544,6 +1544,7 @@ impl Vm {
             Err(error) => {
                 let exc_object = self.new_root_obj_err_from_error(error);
                 self.poke(0, Value::ObjInstance(exc_object.as_gc()));
+                self.active_fiber_mut().error_ip = Some(self.ip);
                 self.unwind_stack()?;
             }
         }
@@ -1789,6 +1790,10 @@ impl Vm {
     fn try_handle_error(&mut self, error: Error) -> Result<(), Error> {
         let obj_err = self.new_root_obj_err_from_error(error);
         self.push(Value::ObjInstance(obj_err.as_gc()));
+        // Like an explicit throw, a failing operation is reported at its own site: a site left
+        // behind by an earlier exception that is still passing through a finally block belongs to
+        // another function's code.
+        self.active_fiber_mut().error_ip = Some(self.ip);
         self.unwind_stack()
     }
 
